@@ -67,10 +67,17 @@ func ensureGombok() string {
 		return bin
 	}
 	tmp := fmt.Sprintf("%s.%d", bin, os.Getpid())
-	cmd := exec.Command("go", "build", "-o", tmp, "./cmd/gombok")
-	cmd.Dir = mc.RepoDir()
-	cmd.Env = goEnv()
-	if out, err := cmd.CombinedOutput(); err != nil {
+	var out []byte
+	for attempt := 0; attempt < 3; attempt++ {
+		cmd := exec.Command("go", "build", "-o", tmp, "./cmd/gombok")
+		cmd.Dir = mc.RepoDir()
+		cmd.Env = goEnv()
+		if out, err = cmd.CombinedOutput(); err == nil || !strings.Contains(string(out), "signal: killed") {
+			break
+		}
+		time.Sleep(5 * time.Second)
+	}
+	if err != nil {
 		// gombok of the tree under test does not build: nothing is emitted, nothing to check;
 		// this is not a statement about emitted instances, so it is an internal error (exit 2)
 		internal("gombok does not build from %s: %v\n%s", mc.RepoDir(), err, out)
@@ -179,9 +186,19 @@ func (r *runner) generate(active []*target) (ok bool, output string) {
 	os.RemoveAll(wdir)
 	r.write("w/w.go", r.ps.workingSource(active))
 	r.nGen++
-	out, code, timedOut := r.command(3*time.Minute, wdir, []string{"GOPACKAGE=w", "GOFILE=w.go", "GOLINE=1", "GOARCH=amd64", "GOOS=linux"}, r.gombok)
+	out, code, timedOut := r.command(10*time.Minute, wdir, []string{"GOPACKAGE=w", "GOFILE=w.go", "GOLINE=1", "GOARCH=amd64", "GOOS=linux"}, r.gombok)
+	for attempt := 0; code == -1 && !timedOut; attempt++ {
+		// killed by a signal from outside (gombok itself exits with 0, 1 or 2): not a verdict
+		if attempt == 2 {
+			panic(gaveUp{fmt.Sprintf("%s: gombok was killed three times", r.ps.Name)})
+		}
+		time.Sleep(time.Duration(5*(attempt+1)) * time.Second)
+		out, code, timedOut = r.command(10*time.Minute, wdir, []string{"GOPACKAGE=w", "GOFILE=w.go", "GOLINE=1", "GOARCH=amd64", "GOOS=linux"}, r.gombok)
+	}
 	if timedOut {
-		return false, out + "\n(gombok did not finish within 3 minutes)"
+		// 300 times the normal running time: a hang cannot be told from an overloaded machine,
+		// so this is "not decided", never a violation
+		panic(gaveUp{fmt.Sprintf("%s: gombok did not finish within 10 minutes", r.ps.Name)})
 	}
 	if code != 0 {
 		return false, fmt.Sprintf("%s\n(gombok exit status %d)", out, code)
@@ -363,12 +380,22 @@ func parseBuildErrors(out string) (errs []buildErr, other []string) {
 }
 
 func (r *runner) build() (string, bool) {
-	r.nBuild++
-	out, code, timedOut := r.command(10*time.Minute, r.dir, nil, "go", "build", "-p", "2", "-gcflags=scratchmod/w=-e", "-o", filepath.Join(r.dir, "lawbin"), "./cmd")
-	if timedOut {
-		internal("go build of %s did not finish within 10 minutes", r.dir)
+	for attempt := 0; ; attempt++ {
+		r.nBuild++
+		out, code, timedOut := r.command(15*time.Minute, r.dir, nil, "go", "build", "-p", "2", "-gcflags=scratchmod/w=-e", "-o", filepath.Join(r.dir, "lawbin"), "./cmd")
+		if timedOut {
+			panic(gaveUp{fmt.Sprintf("%s: go build did not finish within 15 minutes", r.ps.Name)})
+		}
+		if code != 0 && (strings.Contains(out, "signal: killed") || strings.Contains(out, "cannot allocate memory") || strings.Contains(out, "no space left on device")) {
+			// the toolchain was killed from outside (memory pressure of the machine): not a verdict
+			if attempt < 2 {
+				time.Sleep(time.Duration(5*(attempt+1)) * time.Second)
+				continue
+			}
+			panic(gaveUp{fmt.Sprintf("%s: the Go toolchain was killed three times: %s", r.ps.Name, excerpt(out, 4))})
+		}
+		return out, code == 0
 	}
-	return out, code == 0
 }
 
 func excerpt(s string, n int) string {
@@ -470,9 +497,22 @@ func lawTargets(ts []*target) []*target {
 	return out
 }
 
+// gaveUp ends the pipeline of a package without a verdict (the run is marked incomplete).
+type gaveUp struct{ why string }
+
 // run is the whole pipeline of one scratch package.
 func (r *runner) run() {
 	o := r.out
+	defer func() {
+		if p := recover(); p != nil {
+			g, ok := p.(gaveUp)
+			if !ok {
+				panic(p)
+			}
+			o.incomplete = g.why
+			o.logf("gave up: %s", g.why)
+		}
+	}()
 	r.setup()
 	active := lawTargets(r.ps.Targets)
 	o.count("packages", 1)
@@ -490,8 +530,9 @@ func (r *runner) run() {
 		}
 		active = without(active, drop)
 	}
+	killed := 0
 	for round := 0; ; round++ {
-		if round > len(r.ps.Targets)+5 {
+		if round > len(r.ps.Targets)+8 {
 			internal("%s: the failure isolation does not converge", r.ps.Name)
 		}
 		if len(active) == 0 {
@@ -527,6 +568,7 @@ func (r *runner) run() {
 		}
 		var calls []lawCall
 		progressed := false
+		uncallable := map[*target]bool{}
 		for _, t := range active {
 			e := em[t.InstName]
 			if e == nil {
@@ -541,6 +583,7 @@ func (r *runner) run() {
 			if bad != "" {
 				o.report("signature/"+t.ID, "%s: %s\nemitted:\n%s", t.ID, bad, excerpt(e.src, 30))
 				// the instance stays in the package (others may refer to it) but cannot be called
+				uncallable[t] = true
 				continue
 			}
 			calls = append(calls, cs...)
@@ -614,15 +657,22 @@ func (r *runner) run() {
 			continue
 		}
 		// ---- run the laws
-		lout, code, timedOut := r.command(5*time.Minute, r.dir, nil, filepath.Join(r.dir, "lawbin"))
+		lout, code, timedOut := r.command(10*time.Minute, r.dir, nil, filepath.Join(r.dir, "lawbin"))
 		done, crashed := r.parseLawOutput(lout, calls)
+		if !done && code == -1 && !timedOut {
+			// killed by a signal from outside (a Go program that dies by itself exits with 2)
+			if killed++; killed > 2 {
+				panic(gaveUp{fmt.Sprintf("%s: the law program was killed three times", r.ps.Name)})
+			}
+			continue
+		}
 		if !done {
 			if crashed == nil {
 				internal("%s: the law program ended without a verdict (exit %d):\n%s", r.ps.Name, code, excerpt(lout, 30))
 			}
 			what := "the process died"
 			if timedOut {
-				what = "no result within 5 minutes"
+				what = "no result within 10 minutes (normal: under a second)"
 			}
 			tail := lout
 			if i := strings.LastIndex(tail, "B\t"); i >= 0 {
@@ -633,9 +683,11 @@ func (r *runner) run() {
 			continue
 		}
 		for _, t := range active {
-			r.countTarget(t, "")
+			if !uncallable[t] {
+				r.countTarget(t, "")
+				o.states++
+			}
 		}
-		o.states += int64(len(active))
 		return
 	}
 }
